@@ -41,22 +41,68 @@ static mut S_ARG: [f64; 4] = [0.0; 4];
 static mut S_VAL: [f64; 4] = [0.0; 4];
 static mut S_N: usize = 0;
 fn ax_sin_mono(x: f64) -> f64 {
+  // sin on [-pi/2, pi/2]: odd, increasing, in [-1, 1], sin(0) = 0; beyond: any value in [-1, 1]
+  // (NOT monotone there -- the thresholds must not rely on sin growing past pi/2).
+  let ax = if x < 0.0 { -x } else { x };
   let r: f64 = kani::any();
   kani::assume(r >= 0.0 && r <= 1.0);
-  if x == 0.0 { kani::assume(r == 0.0); }
+  if ax > std::f64::consts::FRAC_PI_2 { let sgn: bool = kani::any(); return if sgn { -r } else { r }; }
+  if ax == 0.0 { kani::assume(r == 0.0); }
   unsafe {
     let mut k = 0;
     while k < 4 {
       if k < S_N {
-        if x == S_ARG[k] { kani::assume(r == S_VAL[k]); }
-        if x < S_ARG[k] { kani::assume(r <= S_VAL[k]); }
-        if x > S_ARG[k] { kani::assume(r >= S_VAL[k]); }
+        if ax == S_ARG[k] { kani::assume(r == S_VAL[k]); }
+        if ax < S_ARG[k] { kani::assume(r <= S_VAL[k]); }
+        if ax > S_ARG[k] { kani::assume(r >= S_VAL[k]); }
       }
       k += 1;
     }
-    if S_N < 4 { S_ARG[S_N] = x; S_VAL[S_N] = r; S_N += 1; }
+    if S_N < 4 { S_ARG[S_N] = ax; S_VAL[S_N] = r; S_N += 1; }
+  }
+  if x < 0.0 { -r } else { r }
+}
+/// Contract of `to_squared_half_segment` used as a stub: even, increasing on [0, pi], in [0, 1], 0 at 0;
+/// beyond pi: any value in [0, 1] (sin^2(x/2) decreases again there).
+static mut H_ARG: [f64; 4] = [0.0; 4];
+static mut H_VAL: [f64; 4] = [0.0; 4];
+static mut H_N: usize = 0;
+fn ax_shs_mono(x: f64) -> f64 {
+  let ax = if x < 0.0 { -x } else { x };
+  let r: f64 = kani::any();
+  kani::assume(r >= 0.0 && r <= 1.0);
+  if ax > PI { return r; }
+  if ax == 0.0 { kani::assume(r == 0.0); }
+  unsafe {
+    let mut k = 0;
+    while k < 4 {
+      if k < H_N {
+        if ax == H_ARG[k] { kani::assume(r == H_VAL[k]); }
+        if ax < H_ARG[k] { kani::assume(r <= H_VAL[k]); }
+        if ax > H_ARG[k] { kani::assume(r >= H_VAL[k]); }
+      }
+      k += 1;
+    }
+    if H_N < 4 { H_ARG[H_N] = ax; H_VAL[H_N] = r; H_N += 1; }
   }
   r
+}
+/// (T') thresholds against the contract of to_squared_half_segment (product-free, hence a proof):
+/// a centre at angular distance a <= min(radius + d, pi) passes `shs <= max`; a <= radius - d passes
+/// `shs <= min`; min <= max when radius >= d.  The contract itself (monotone on [0, pi]) is the
+/// search unit cone_thresholds_contract.
+#[kani::proof]
+#[kani::stub(crate::to_squared_half_segment, ax_shs_mono)]
+#[kani::unwind(6)]
+fn cone_thresholds_struct() {
+  let r: f64 = kani::any(); let d: f64 = kani::any(); let a: f64 = kani::any();
+  kani::assume(r > 0.0 && r <= PI && d >= 0.0 && d <= 0.85 && a >= 0.0 && a <= PI);
+  let arr = to_shs_min_max_array(r, vec![d].into_boxed_slice());
+  let shs_a = crate::to_squared_half_segment(a);
+  if a <= r + d { assert!(shs_a <= arr[0].max, "C05 a centre within radius + cell size passes the 'descend / keep' threshold (also when radius + cell size exceeds pi)"); }
+  if a <= r - d { assert!(shs_a <= arr[0].min, "C06 a centre within radius - cell size passes the 'fully inside' threshold"); }
+  if r >= d { assert!(arr[0].min <= arr[0].max, "C05/C06 thresholds ordered"); }
+  kani::cover!(r + d > PI && a <= r + d, "radius + cell size beyond pi (clamped)");
 }
 /// Thresholds per recursion level, through to_shs_min_max_array (the function the coverage calls):
 /// for 0 < r <= pi and cell sizes d_k in [0, 0.85], at every level k:
